@@ -92,6 +92,62 @@ def asm_generate_and_replay(ctx, label, cfg_kwargs, profiles, deep=False, target
     os.remove(cases)
 
 
+def ta_cfg(ti, level, maxdev, rejects=1):
+    return """SPECIFICATION TSpec
+CONSTANTS
+  Keys <- TKeys
+  Scalars <- TScalars
+  Prebuilt <- TPrebuilt
+  Hints = {0}
+  TopKind = "any"
+  MaxNodes = 16
+  MaxDepth = 6
+  MaxRejects = %d
+  MaxResets = 0
+  Routes = {"entry", "keyvalue", "keynode"}
+  Wide = FALSE
+  TypeIdx = %d
+  Level = "%s"
+  MaxDev = %d
+INVARIANTS TypeOK NoDuplicateKeys BuiltIsFoldOfAccepted LegalIsConforming BuiltViewsConsistent TEmit
+PROPERTIES RefinesGeneric RejectIsNoop FinishedNeverChanges
+CHECK_DEADLOCK FALSE
+""" % (rejects, ti, level, maxdev)
+
+
+def typed_protocol_cases(ctx, maxdev, rejects=1):
+    """Behaviours of TypedAssembler.tla: one JVM per (catalogue type, level)."""
+    jobs, files = [], []
+    for ti in range(1, NTYPES + 1):
+        for level in ("type", "repr"):
+            f = os.path.join(ctx.scratch, "ta-%d-%s.ndjson" % (ti, level))
+            files.append(f)
+            jobs.append(dict(module="TypedAssembler", cfg=ta_cfg(ti, level, maxdev, rejects), capture=f, workers=1,
+                             heap="2g", timeout=3000))
+    ctx.tlc_parallel(jobs, max_procs=16)
+    allf = os.path.join(ctx.scratch, "ta-all.ndjson")
+    with open(allf, "w") as out:
+        for f in files:
+            out.write(open(f).read())
+            os.remove(f)
+    return allf
+
+
+def typed_protocol_stage(ctx, maxdev, secondary=False, rejects=1):
+    """C12 / C01 on the typed builders of both engines (reflection binding, freshly generated code).
+    secondary: also judge how the built node answers questions that do not apply to it (C01)."""
+    f = typed_protocol_cases(ctx, maxdev, rejects)
+    sec = ["-secondary"] if secondary else []
+    args = ["typedasm", "-in", f] + sec
+    ctx.absorb(ctx.vh_run(args, timeout=3000), args, label="typedasm/bindnode")
+    fconf = schema_cases(ctx, "conforming", 1, "conf")
+    genrun = gen_engine(ctx, fconf)
+    if genrun is not None:
+        args = ["-typedasm", "-in", f] + sec
+        ctx.absorb(ctx.vh_run(args, binary=genrun, timeout=3000), args, label="typedasm/gengo", binary=genrun)
+    os.remove(f)
+
+
 @prop("C12")
 def c12(ctx):
     profiles = sorted({0, ctx.seed % 4})
@@ -114,11 +170,20 @@ def c12(ctx):
     # (4) B3 only: deeper bounds with the history hidden by a VIEW
     ctx.tlc("AssemblerGen", asm_cfg(topkind="any", nodes=6 if quick else 7, depth=3, nkeys=2, rejects=2, resets=1,
                                     prebuilt="basic", emit=False, view=True), timeout=1500)
+    # (5) the typed builders of both engines, type level and representation level (TypedAssembler.tla)
+    typed_protocol_stage(ctx, 2 if quick else 3)
     return ctx.finish(
         "model_checking",
         rule="behaviours = every call sequence of Assembler.tla inside the bounds (TLC, exhaustive, one JSON line per "
              "complete behaviour); non-trivial = contains a rejection, an AssignNode or a nested container; distinct = "
-             "distinct call sequences; each is replayed per target builder and concretisation profile",
+             "distinct call sequences; each is replayed per target builder and concretisation profile. Typed builders: "
+             "TypedAssembler.tla = the same machine guarded by the schema type governing each position, for each of the 34 "
+             "catalogue types at type level and at representation level (struct map/tuple/stringjoin, union keyed/kinded/"
+             "stringprefix, enums, typed maps and lists, nested): every legal call sequence within a deviation budget from "
+             "the canonical one (field order, route, key as node, other value / null, AssignNode of a whole container), a "
+             "repeated key or an unacceptable kind / null injected at every position; replayed on bindnode and on code "
+             "generated afresh; the node returned by Build is compared with FromType / FromRepr of Schema.tla applied to "
+             "the accepted calls (type view and representation view)",
         assumptions=["TLC explores the bounded instance exhaustively; bounds are in coverage.tlc_runs",
                      "result classes: ok / repeated_key (datamodel.ErrRepeatedMapKey) / wrong_kind (any error from that call)"],
         exhaustive=True)
@@ -143,9 +208,13 @@ def c01(ctx):
     asm_generate_and_replay(ctx, "allkinds", dict(topkind="any", nodes=3, depth=2, nkeys=2, rejects=0,
                                                   kinds=ALLK, prebuilt="all+uint"), profiles, deep=True)
     # (2) larger shapes, size hints of every sign, fewer scalar kinds
-    asm_generate_and_replay(ctx, "hints", dict(topkind="any", nodes=4 if quick else 5, depth=2 if quick else 3, nkeys=2, rejects=0,
+    asm_generate_and_replay(ctx, "hints", dict(topkind="any", nodes=4, depth=2, nkeys=2, rejects=0,
                                                kinds=("int", "string"), prebuilt="none",
                                                hints=(-1, 0, 1, 7), routes=("entry", "keyvalue")), profiles, deep=True)
+    if not quick:   # deeper and larger, one size hint (measured: 4 hints at this bound exceed 25 M states)
+        asm_generate_and_replay(ctx, "deep", dict(topkind="any", nodes=5, depth=3, nkeys=2, rejects=0,
+                                                  kinds=("int", "string"), prebuilt="none",
+                                                  hints=(0,), routes=("entry", "keyvalue")), profiles, deep=True)
     # (3) kind-restricted builders: Prototype.Map / .List and typed (bindnode) containers
     asm_generate_and_replay(ctx, "map", dict(topkind="map", nodes=4, depth=2, nkeys=2 if quick else 3, rejects=0,
                                              kinds=("int", "bytes", "null"), prebuilt="all"), profiles, deep=True)
@@ -155,13 +224,19 @@ def c01(ctx):
     for k in ("bool", "int", "float", "string", "bytes", "link"):
         asm_generate_and_replay(ctx, "scalar-" + k, dict(topkind=k, nodes=1, depth=1, nkeys=1, rejects=1,
                                                          kinds=ALLK, prebuilt="basic"), [0, 1, 2, 3], deep=True)
+    # (5) the typed implementations within their schema's value space: struct / union / enum / typed map and list builders
+    #     of bindnode and of freshly generated code, type level and representation level (TypedAssembler.tla)
+    typed_protocol_stage(ctx, 2 if quick else 3, secondary=True, rejects=0)   # legal sequences only (rejections: C12)
     return ctx.finish(
         "model_checking",
         rule="behaviours = every legal call sequence of Assembler.tla inside the bounds (all routes: AssembleEntry vs "
              "AssembleKey/AssembleValue, Assign<Kind> vs AssignNode from basicnode/bindnode/foreign nodes, size hints); "
              "each Build is read back through every read form and compared with DataModel!Obs of the specified value, "
              "then DeepEqual/Copy against every other implementation; non-trivial = has a container or AssignNode; "
-             "distinct = distinct call sequences",
+             "distinct = distinct call sequences. Typed implementations: the behaviours of TypedAssembler.tla (34 catalogue "
+             "types x type / representation level, every way of making the calls within the deviation budget) on bindnode and "
+             "on code generated afresh; the built node's type view and representation view are read through every read form "
+             "(wrong-kind accessors, out-of-range lookups, iterator over-read included) against FromType / FromRepr / ReprOf",
         assumptions=["bounded value size (see tlc_runs); scalar payloads come from the concretisation profiles in harness/model/conc.go",
                      "DeepEqual/Copy are not asserted for uint64 values above MaxInt64 (they go through AsInt; 'where supported')"],
         exhaustive=True)
@@ -902,9 +977,10 @@ def c20(ctx):
 
 
 # --------------------------------------------------------------------------- immutability
-def im_cfg(maxops, maxnodes):
+def im_cfg(maxops, maxnodes, producer="all"):
     return """SPECIFICATION Spec
 CONSTANTS
+  ProducerSel = "%s"
   Producers <- GenProducers
   Values0 <- GenValues
   OpNames <- GenOps
@@ -913,16 +989,31 @@ CONSTANTS
 INVARIANTS Emit
 PROPERTIES FinishedNeverChanges
 CHECK_DEADLOCK FALSE
-""" % (maxops, maxnodes)
+""" % (producer, maxops, maxnodes)
+
+
+IM_PRODUCERS = ("basic-any", "basic-typed", "bind", "decode-cbor", "decode-json")
 
 
 @prop("C11")
 def c11(ctx):
     quick = ctx.tier == "quick"
-    f = os.path.join(ctx.scratch, "im.ndjson")
-    ctx.tlc("ImmutableGen", im_cfg(3, 3) if quick else im_cfg(4, 3), capture=f, workers=8, timeout=3000)
-    args = ["immutable", "-in", f]
-    ctx.absorb(ctx.vh_run(args, timeout=3000), args, label="immutable")
+    if quick:
+        f = os.path.join(ctx.scratch, "im.ndjson")
+        ctx.tlc("ImmutableGen", im_cfg(3, 3), capture=f, workers=8, timeout=3000)
+        args = ["immutable", "-in", f]
+        ctx.absorb(ctx.vh_run(args, timeout=3000), args, label="immutable")
+    else:       # 4 operations: ~1 M histories per producer; one JVM and one replay per producer
+        jobs, files = [], []
+        for pr in IM_PRODUCERS:
+            f = os.path.join(ctx.scratch, "im-%s.ndjson" % pr)
+            files.append(f)
+            jobs.append(dict(module="ImmutableGen", cfg=im_cfg(4, 3, pr), capture=f, workers=3, heap="5g", timeout=5000))
+        ctx.tlc_parallel(jobs, max_procs=5)
+        for pr, f in zip(IM_PRODUCERS, files):
+            args = ["immutable", "-in", f]
+            ctx.absorb(ctx.vh_run(args, timeout=5000), args, label="immutable/" + pr)
+            os.remove(f)
     return ctx.finish(
         "model_checking",
         rule="histories = every sequence of 3 (thorough: 4) operations from {read, partial iteration / partial large-bytes "
